@@ -142,6 +142,12 @@ impl C05 {
                 syms.push(c);
             }
         }
+        // the index alphabet is a superset of the sequence symbols; it need not list the sentinel (the documented
+        // usage is dna::n_alphabet() with '$'), as long as some listed symbol is larger than the sentinel
+        if text.iter().any(|&c| c > sentinel) && rng.chance(1, 3) {
+            syms.retain(|&c| c != sentinel);
+            ctx.count("index_alphabets_without_the_sentinel", 1);
+        }
         let alphabet = Alphabet::new(&syms[..]);
         let alpha_syms: Vec<u8> = alphabet.symbols.iter().map(|s| s as u8).collect();
         let sa = match guard(|| suffix_array(&text)) {
@@ -166,6 +172,8 @@ impl C05 {
         let big = n > 100_000;
         let srate = match rng.below(4) {
             _ if big => rng.range(2, 33), // a walk costs O(sampling rate) per reported position
+            // rates beyond 2^32 are legal (only row 0 is sampled, everything else is resolved by the LF walk)
+            _ if n <= 60 && rng.chance(1, 12) => *rng.pick(&[(1usize << 32) + 2, 1 << 32, (3usize << 32) + 5, u32::MAX as usize, usize::MAX / 2]),
             0 => 1,
             1 => rng.range(1, n),
             _ => rng.range(2, 9),
@@ -325,7 +333,7 @@ impl Monitor for C05 {
             + match t {
                 Tier::Tiny => 6,
                 Tier::Quick => 200000,
-                Tier::Thorough => 2000000,
+                Tier::Thorough => 240000,
             }
     }
     fn rule(&self) -> &'static str {
@@ -351,6 +359,8 @@ impl Monitor for C05 {
                     ("directed:thue-morse", t)
                 }
                 5 => ("directed:equal-seqs", b"ACGT$ACGT$ACGT$".to_vec()),
+                8 => ("directed:alphabet-ending-at-byte-35", b"#\"#\"\"#!\"##!".to_vec()),
+                9 => ("directed:rank-transformed-36-symbols", (1..=35u8).chain((1..=35u8).rev()).chain(std::iter::once(0u8)).collect()),
                 6 if !ctx.tiny() => {
                     let mut t = Vec::new();
                     for i in 0..300usize {
